@@ -11,6 +11,11 @@
 (*   enc     the table the real get_encoding(name, diff) call returned     *)
 (*   final   font.cid2unicode after construction (= enc unless the         *)
 (*           built-in encoding of an embedded Type 1 program replaced it)  *)
+(*   tabs0 / tabs1 / pristine   digest of EncodingDB's four shared base     *)
+(*           tables before and after the font was built, and whether the   *)
+(*           base table the font started from is what latin_enc prescribes *)
+(*           (constructing a font must leave the shared tables unchanged:  *)
+(*           FontSeq.tla SharedUnchanged)                                  *)
 (*   codes   for every code 0..255 the to_unichr / char_width events:      *)
 (*           hastu/tu (entry of the ToUnicode map), txt (result, <<-1>> =  *)
 (*           PDFUnicodeNotDefined), and the arithmetic facts inw/eqw/inm/  *)
@@ -39,6 +44,7 @@ Init == t = 1 /\ ph = "start" /\ k = 0 /\ cur = 0 /\ enc = <<>>
 
 \* table index of code c is c+1 (JSON arrays are 1-based sequences)
 AStart == /\ t <= N /\ ph = "start"
+          /\ Cur.tabs0 = Cur.tabs1 /\ Cur.pristine
           /\ Len(Cur.base) = 256 /\ Len(Cur.enc) = 256 /\ Len(Cur.final) = 256 /\ Len(Cur.codes) = 256
           /\ enc' = Cur.base /\ cur' = 0 /\ k' = 0 /\ ph' = "diff" /\ UNCHANGED t
 
